@@ -111,6 +111,7 @@ type Obl struct {
 	Trivial bool
 	DefNames []string
 	DefBodies []*Term
+	provedFile string // the SMT-LIB file whose unsatisfiability discharged the obligation
 	RecDefs  map[string]*recDef // recursive spec functions: parameters and body (for the unfold-once attempt)
 	Real bool // print integers as reals (field-congruence mode)
 	realPrint bool
